@@ -3,7 +3,7 @@
 From Coq Require Import List NArith ZArith.
 From HS Require Import Quorum.QuorumModel Protocol.Core Protocol.Chained Protocol.ChainedExec Protocol.ChainedExecProofs.
 From HS Require Import Protocol.Fast Protocol.FastExec Protocol.FastExecProofs.
-From HS Require Protocol.Refine Protocol.RefineFast Protocol.RefineCommit Protocol.Stack Protocol.Bridge Cert.CertModel Crypto.Symbolic Base.Prelude.
+From HS Require Protocol.Refine Protocol.RefineFast Protocol.RefineCommit Protocol.Stack Protocol.StackFast Protocol.Bridge Cert.CertModel Crypto.Symbolic Base.Prelude.
 Import ListNotations.
 Open Scope N_scope.
 
@@ -326,6 +326,34 @@ Theorem C01_code_level_commit_walk_segment_exists :
     exists lx, segment Uu x cv lx /\ Forall2 RefineCommit.same l lx.
 Proof. exact RefineCommit.commit_walk_is_segment. Qed.
 Print Assumptions C01_code_level_commit_walk_segment_exists.
+
+Theorem C01_voter_and_fast_rules_stack_refines_abstract_step :
+  forall replicas byz leader s r f cur st p pr,
+    let genesis := Refine.absb Refine.R.genesis in
+    let blk := Refine.R.p_block pr in
+    honest byz r = true ->
+    Refine.view_of f (Fast.U s) ->
+    Fast.U s (Refine.R.b_hash blk) = Some (Refine.absb blk) ->
+    f_lastVoted (Fast.loc genesis s r) = Stack.V.last_voted st ->
+    Stack.describes (fun f _ v pr => Refine.R.fast_vote f v pr) p pr f Refine.R.genesis cur ->
+    (Stack.V.p_qc_ok p = true ->
+     Fast.certified (member replicas) (qsize replicas) genesis s (Refine.R.qc_hash (Refine.R.b_qc blk)) /\
+     forall qb, Refine.R.get f (Refine.R.qc_hash (Refine.R.b_qc blk)) = Some qb ->
+                Refine.R.qc_view (Refine.R.b_qc blk) = Refine.R.b_view qb) ->
+    (Stack.V.p_agg_ok p = true -> forall a qb, Refine.R.p_agg pr = Some a ->
+       Refine.R.get f (Refine.R.qc_hash (Refine.R.b_qc blk)) = Some qb ->
+       Fast.agg_ok (member replicas) (qsize replicas) genesis s (Refine.R.agg_view a) (Refine.absb qb) /\
+       Refine.R.agg_view a < Refine.R.two64 - 1) ->
+    (forall x, In x f -> Refine.R.b_view x < Refine.R.two64 - 1) ->
+    Stack.V.verify leader st p = true ->
+    Fast.step (member replicas) (honest byz) (qsize replicas) genesis s
+              (Fast.fcast_vote genesis s r (Refine.absb blk)).
+Proof.
+  intros replicas byz leader s r f cur st p pr.
+  exact (StackFast.fast_stack_vote_refines (member replicas) (honest byz) (qsize replicas) leader
+           s r f cur st p pr).
+Qed.
+Print Assumptions C01_voter_and_fast_rules_stack_refines_abstract_step.
 
 (* "certified" is what VerifyQuorumCert establishes (C02's model) under signature
    unforgeability: every genuine vote signature of a member inside the certificate is a vote of
